@@ -2,6 +2,7 @@
 //       error and leaves its outputs untouched; nothing runs before the self tests; non-approved algorithms are always
 //       refused; XTS refuses key1 == key2.     (built against the FIPS_MODE variant of the library)
 #include "../common/entries.hpp"
+#include "../common/fips_status.hpp"
 #include <atomic>
 #include <thread>
 #include <unistd.h>
@@ -13,22 +14,9 @@ int __real__aes_self_tests(void);
 int __real__sha_self_tests(void);
 }
 
-// The status word is a local symbol of asm_self_tests.asm.  asm_set_self_tests_status is "mov [rip+rel32], edi ; ret"
-// (89 3d rel32 c3, possibly preceded by endbr64); decode the address so the state can be read without the side effects
-// of asm_check_self_tests_status (which claims the NOT_DONE state and spins while RUNNING).
-static volatile uint32_t *status_ptr()
-{
-        static volatile uint32_t *p = nullptr;
-        if (p) return p;
-        const uint8_t *c = (const uint8_t *) &asm_set_self_tests_status;
-        if (c[0] == 0xf3 && c[1] == 0x0f && c[2] == 0x1e && c[3] == 0xfa) c += 4;
-        if (c[0] == 0x89 && c[1] == 0x3d) {
-                int32_t rel;
-                memcpy(&rel, c + 2, 4);
-                p = (volatile uint32_t *) (c + 6 + rel);
-        }
-        return p;
-}
+// The status word is a local symbol of asm_self_tests.asm; it is located behaviourally (fips_status.hpp) so that the
+// state can be read without the side effects of asm_check_self_tests_status (which claims NOT_DONE and spins while RUNNING).
+static volatile uint32_t *status_ptr() { return fips::status_ptr(); }
 
 // ST_WAIT_*: another thread is running the self tests (status RUNNING) when the call is made; the caller has to wait and then sees the published verdict
 enum State { ST_FAILED = 0, ST_PASSED = 1, ST_FRESH_FAIL = 2, ST_FRESH_PASS = 3, ST_WAIT_FAIL = 4, ST_WAIT_PASS = 5, NSTATE = 6 };
@@ -93,12 +81,12 @@ static void set_state(int st)
 {
         g_inject_fail = 0;
         switch (st) {
-        case ST_FAILED: asm_set_self_tests_status(1); break;
-        case ST_PASSED: asm_set_self_tests_status(0); break;
-        case ST_FRESH_FAIL: asm_set_self_tests_status(2); g_inject_fail = 1; break;
-        case ST_FRESH_PASS: asm_set_self_tests_status(2); break;
+        case ST_FAILED: fips::set_state(1); break;
+        case ST_PASSED: fips::set_state(0); break;
+        case ST_FRESH_FAIL: fips::set_state(2); g_inject_fail = 1; break;
+        case ST_FRESH_PASS: fips::set_state(2); break;
         case ST_WAIT_FAIL:
-        case ST_WAIT_PASS: asm_set_self_tests_status(3); break; // SELF_TEST_RUNNING: somebody else has claimed the run
+        case ST_WAIT_PASS: fips::set_state(3); break; // SELF_TEST_RUNNING: somebody else has claimed the run
         }
 }
 
@@ -119,7 +107,7 @@ static bool run(const Case &c, pbt::Ctx &ctx)
         if (nt_variant) p.len = p.len / 64 * 64;
         ent::Call call;
         // object preparation uses internal entry points only; make it independent of the self-test state anyway
-        asm_set_self_tests_status(0);
+        fips::set_state(0);
         if (!e->build(A, p, call)) { ctx.label("absent-entry"); return true; }
         // XTS with identical keys, as supplied
         bool xts = e->group == "xts";
@@ -152,7 +140,7 @@ static bool run(const Case &c, pbt::Ctx &ctx)
                 });
                 while (!started.load()) {}
                 usleep(150 + (unsigned) (c.seed % 400));
-                asm_set_self_tests_status(c.state == ST_WAIT_FAIL ? 1 : 0);
+                fips::set_state(c.state == ST_WAIT_FAIL ? 1 : 0);
                 th.join();
         } else {
                 ok = guard::guarded_call(fi, [&] { ret = ent::invoke(call, call.argv); });
@@ -160,7 +148,7 @@ static bool run(const Case &c, pbt::Ctx &ctx)
         g_cur = nullptr;
         g_snap = nullptr;
         int status_after = (int) *status_ptr();
-        asm_set_self_tests_status(0);
+        fips::set_state(0);
         if (!ok) {
                 A.describe(fi);
                 return !failx("fault", "fault: " + fi.where);
@@ -232,11 +220,9 @@ int main(int argc, char **argv)
                 for (auto &e : g_entries)
                         if (!isal::sym(e.name)) ctx.notes.push_back("catalog entry absent from the archive: " + e.name);
                 if (!status_ptr()) { fprintf(stderr, "HARNESS-ERROR: cannot locate the self-test status word\n"); exit(3); }
-                asm_set_self_tests_status(0);
+                fips::set_state(0);
                 if (isal_self_tests() == ISAL_CRYPTO_ERR_FIPS_DISABLED) { fprintf(stderr, "HARNESS-ERROR: C13 needs the FIPS_MODE variant of the library\n"); exit(3); }
-                asm_set_self_tests_status(7);
-                if (*status_ptr() != 7) { fprintf(stderr, "HARNESS-ERROR: decoded self-test status address is wrong\n"); exit(3); }
-                asm_set_self_tests_status(0);
+                fips::set_state(0);
         };
         P.gen = [](pbt::Ctx &) {
                 using namespace pbt;
